@@ -100,7 +100,7 @@ def match_known(known, pid, case_name, failed_descs):
         if any(re.search(k.get('assertion', '.'), d) for d in failed_descs): hits.append(k)
     return hits
 
-def execute(pid, tier, seed, cases, assumptions, extra_cov=None, budget_s=None, jobs=None, level='model_checking', keep=False):
+def execute(pid, tier, seed, cases, assumptions, extra_cov=None, budget_s=None, jobs=None, level='model_checking', keep=False, pre_violations=()):
     t0 = time.time()
     only = os.environ.get('VERIF_ONLY')
     if only: cases = [c for c in cases if fnmatch.fnmatch(c.name, only)]
@@ -115,7 +115,7 @@ def execute(pid, tier, seed, cases, assumptions, extra_cov=None, budget_s=None, 
             dst = os.path.join(bdir, 'snapshot_' + os.path.basename(c.harness)); shutil.copyfile(c.harness, dst); snap[c.harness] = dst
         c.harness_src = c.harness; c.harness = snap[c.harness]
     known = load_known()
-    broken = []; violations = []; known_lines = []
+    broken = []; violations = list(pre_violations); known_lines = []
     # ---- translation validation (per run)
     tvs = []
     tv_cases = [c for c in cases if c.tv]
@@ -235,6 +235,16 @@ def generic_replay(path, mod=None):
     against the REAL object code and feed it the recorded nondet stream; exit 1 if the violation reproduces."""
     import importlib
     rp = json.load(open(path)); pid = rp['property']
+    if rp.get('kind') == 'compile':
+        # a legal structure the real templates refused to compile: compile the recorded translation unit against the current tree
+        try:
+            build_ir(rp['source'], os.path.join('/tmp', 'vf_replay_%d.ll' % os.getpid()), **rp['build'])
+            try: os.remove(os.path.join('/tmp', 'vf_replay_%d.ll' % os.getpid()))
+            except OSError: pass
+            log('not reproduced on the current tree (the structure compiles)'); return 0
+        except Broken as e:
+            log('compile error: ' + getattr(e, 'first_error', '?'))
+            log('VIOLATION property=%s replay=%s   # reproduced against the real code' % (pid, path)); return 1
     mod = mod or importlib.import_module('props.' + pid.lower())
     os.environ['VERIF_ONLY'] = rp['case']
     found = None
